@@ -122,6 +122,8 @@ fn optimal_deviations<const PLAYER_ONE: bool>(
 
         // set the max utility of playing to reach an infoset
         infosets[info].max_utility = payoffs.into_iter().reduce(f64::max).unwrap() / total_reach;
+        #[cfg(cfr_verif)]
+        crate::verif::eval_pop(PLAYER_ONE, info, infosets[info].max_utility);
     }
     next_infoset_search::<PLAYER_ONE>(start, &mut search_queue, &infosets, chance_info, strat_info)
 }
@@ -180,6 +182,8 @@ pub(super) fn regret(
     let expected = expected(start, chance_info, strat_info);
     let one = optimal_deviations::<true>(start, chance_info, player_info[0], strat_info[1]);
     let two = optimal_deviations::<false>(start, chance_info, player_info[1], strat_info[0]);
+    #[cfg(cfr_verif)]
+    crate::verif::eval_end([one, two]);
     (
         expected,
         [f64::max(one - expected, 0.0), f64::max(two + expected, 0.0)],
